@@ -470,6 +470,12 @@ func CompileRegexp(re *syntax.Regexp, config Config) (*Engine, error) {
 			MaxClassSize:  10,
 		})
 		literals = extractor.ExtractPrefixes(re)
+		if literals.IsPartialCoverage() {
+			// Some alternatives are not represented: a match need not start with any of
+			// these literals, so they cannot drive a prefilter, a skip-ahead or the choice
+			// of a literal-based strategy. Treat as "no literals".
+			literals = nil
+		}
 
 		// Build prefilter from prefix literals
 		if literals != nil && !literals.IsEmpty() {
